@@ -130,6 +130,7 @@ def parse_loops_file(path):
 def weave_text(src, specs, fname="<src>"):
     masked = _mask(src)
     inserts = []  # (pos, text)
+    anchors = []
     for fn, ordinal, rx, clauses in specs:
         body = find_function_body(masked, fn)
         if body is None:
@@ -142,6 +143,7 @@ def weave_text(src, specs, fname="<src>"):
         if not re.search(rx, header):
             raise Undecided("weave: loop %d of %s is `%s`, anchor /%s/ does not match (code was restructured)" % (ordinal, fn, header, rx))
         inserts.append((hc + 1, "\n" + "\n".join(clauses) + "\n"))
+        anchors.append((fn, kpos))
     inserts.sort()
     out, last = [], 0
     spans = []
@@ -164,10 +166,36 @@ def weave_text(src, specs, fname="<src>"):
     return woven
 
 
-def weave_file(src_path, loops_path, out_path):
+def weave_file(src_path, loops_path, out_path, only=None):
     src = open(src_path).read()
     specs = parse_loops_file(loops_path)
+    if only is not None:
+        specs = [sp for sp in specs if sp[0] in only]
+        if not specs:
+            raise Undecided("weave: no loop clauses for %s in %s" % (sorted(only), loops_path))
     woven = weave_text(src, specs, os.path.basename(src_path))
     os.makedirs(os.path.dirname(out_path), exist_ok=True)
     open(out_path, "w").write(woven)
-    return len(specs)
+    # [(function, line number in the woven file of each loop keyword that carries clauses)]
+    return weave_lines(src, specs)
+
+
+def weave_text_anchors(src, specs):
+    masked = _mask(src)
+    res = []
+    for fn, ordinal, rx, clauses in specs:
+        body = find_function_body(masked, fn)
+        loops = loops_in(masked, body[0], body[1])
+        res.append((fn, loops[ordinal][0], loops[ordinal][2], len(clauses) + 2))
+    return res
+
+
+def weave_lines(src, specs):
+    """[(function, line number of the loop keyword in the WOVEN file)]"""
+    anchors = sorted(weave_text_anchors(src, specs), key=lambda a: a[1])
+    out, shift = [], 0
+    for fn, kpos, hc, nlines in anchors:
+        line = src.count("\n", 0, kpos) + 1 + shift
+        out.append((fn, line))
+        shift += nlines - 1  # inserted text is "\n" + clauses + "\n": len(clauses) + 1 newlines
+    return out
